@@ -1,10 +1,12 @@
 import ObiVerif.Lemmas.Header
+import ObiVerif.Lemmas.Json
+import ObiVerif.Lemmas.FastqMany
 /-!
 # C02 — write then read round-trips records unchanged (FASTA/FASTQ + JSON header)
 
 Property theorems on the model `ObiVerif.Model.Header` (tied to `/repo` by the correspondence check of
-`harness/c02.go`).  goccy/go-json is a parameter of the model; its contract is a hypothesis validated by
-the harness on every generated annotation map.
+`harness/c02.go`).  First part: theorems for any JSON library satisfying the contract `JsonLib.OKat`; second part
+(`…_json`): the contract is proved for the model of goccy/go-json (`Model/Json.lean`), which makes them unconditional.
 -/
 namespace ObiVerif.Props.C02
 open ObiVerif.Header
@@ -127,8 +129,8 @@ theorem write_read_fastq {α : Type} [DecidableEq α] (J : JsonLib α) (sh : UIn
 
 /-- **FASTA: any non-empty set of records.** What `FormatFastaBatch` prints for a list of records is read back by
     `FastaChunkParser` + `ParseFastSeqJsonHeader` as exactly these records, in order; hence writing the re-read
-    records gives the same bytes. (The FASTQ statement for several records in one chunk is tied by the
-    correspondence check only; record framing across chunks is property C01.) -/
+    records gives the same bytes. (FASTQ: `write_read_fastq_many` below; record framing across chunks is
+    property C01.) -/
 theorem write_read_fasta_many {α : Type} [DecidableEq α] (J : JsonLib α) (r : Record α) (rs : List (Record α))
     (hJ : ∀ x ∈ r :: rs, J.OKat (x.ann, x.defn)) (h : ∀ x ∈ r :: rs, WF x) :
     readFasta J ((r :: rs).map (writeFasta J)).flatten = some ((r :: rs).map (fun x => { x with qual := none })) :=
@@ -139,6 +141,28 @@ theorem write_read_write_fixed_fasta_many {α : Type} [DecidableEq α] (J : Json
     ∃ back, readFasta J ((r :: rs).map (writeFasta J)).flatten = some back
       ∧ (back.map (writeFasta J)).flatten = ((r :: rs).map (writeFasta J)).flatten :=
   ⟨_, write_read_fasta_many_aux J r rs hJ h, by rw [List.map_map]; rfl⟩
+
+/-- **FASTQ: any set of records in one chunk** (offsets 33 and 64): what `FormatFastqBatch` prints for a list of
+    records is read back by `FastqChunkParser` (the 12-state machine, `_storeSequenceQuality` on the last record at
+    every quality line) + `ParseFastSeqJsonHeader` as exactly these records, in order, qualities clamped at 93. -/
+theorem write_read_fastq_many {α : Type} [DecidableEq α] (J : JsonLib α) (sh : UInt8) (hsh : sh = 33 ∨ sh = 64)
+    (rs : List (Record α)) (hJ : ∀ x ∈ rs, J.OKat (x.ann, x.defn)) (h : ∀ x ∈ rs, WF x)
+    (hq : ∀ x ∈ rs, (qualities x.seq x.qual).length = x.seq.length) :
+    readFastq J sh (rs.map (writeFastq J sh)).flatten
+      = some (rs.map (fun x => { x with qual := some ((qualities x.seq x.qual).map (fun q => min q 93)) })) :=
+  write_read_fastq_many_aux J sh hsh rs hJ h hq
+
+theorem write_read_write_fixed_fastq_many {α : Type} [DecidableEq α] (J : JsonLib α) (sh : UInt8)
+    (hsh : sh = 33 ∨ sh = 64) (rs : List (Record α)) (hJ : ∀ x ∈ rs, J.OKat (x.ann, x.defn)) (h : ∀ x ∈ rs, WF x)
+    (hq : ∀ x ∈ rs, (qualities x.seq x.qual).length = x.seq.length) :
+    ∃ back, readFastq J sh (rs.map (writeFastq J sh)).flatten = some back
+      ∧ (back.map (writeFastq J sh)).flatten = (rs.map (writeFastq J sh)).flatten := by
+  refine ⟨_, write_read_fastq_many_aux J sh hsh rs hJ h hq, ?_⟩
+  rw [List.map_map]
+  congr 1
+  apply List.map_congr_left
+  intro x hx
+  exact write_fastq_clamped J sh x (h x hx).seq_ne (hq x hx)
 
 /-- **Write-after-read is a fixed point** (FASTA): the re-read record is written as the same bytes. -/
 theorem write_read_write_fixed_fasta {α : Type} [DecidableEq α] (J : JsonLib α) (r : Record α)
@@ -173,5 +197,130 @@ example : ∃ r', readFastq toyLib 33 (writeFastq toyLib 33 r0) = some [r']
   have hW : WF r0 :=
     { id_ne := by decide, id_noBlank := by decide, seq_ne := by decide, seq_ok := by decide }
   exact write_read_write_fixed_fastq toyLib 33 (Or.inl rfl) r0 hJ hW (by decide)
+
+/-! ## the JSON encoder / decoder modelled: the contract of go-json becomes a theorem
+
+`ObiVerif.Json` (`Model/Json.lean`) is a model of what goccy/go-json prints and reads on the value universe of the
+property: strings of any bytes (escapes of `"`, `\`, control characters, U+2028/9), numbers as decimal literals,
+booleans, `null`, lists and maps nested without bound; a map is its members in the order the encoder prints them.
+`goJson : JsonLib JMems` is the library as the title-line code uses it.  `AnnOK a`: every number literal inside `a`
+obeys the JSON grammar and `a` has no member `definition` (it is kept apart in the record). -/
+
+open ObiVerif.Json
+
+/-- **decode ∘ encode = id**: every object (strings with quotes, backslashes, braces, control characters, any UTF-8;
+    numbers; booleans; nested maps and lists of any depth) printed by the encoder is read back as itself. -/
+theorem json_decode_encode (m : JMems) (hm : m.WF = true) : decodeObj (encodeObj m) = some m :=
+  decodeObj_encodeObj m hm
+
+/-- **the encoder always prints one balanced, properly escaped object** … -/
+theorem json_encode_balanced (m : JMems) (hm : m.WF = true) : ∃ ts, encodeObj m = flat ts ∧ BalancedObj ts :=
+  encodeObj_balanced m hm
+
+/-- … **on one line** -/
+theorem json_encode_oneLine (m : JMems) (hm : m.WF = true) : ∀ c ∈ encodeObj m, isEol c = false :=
+  encodeObj_oneLine m hm
+
+/-- hence **the scanner of `_parse_json_header_` finds every encoded object, whatever follows it** — no hypothesis
+    on the text left -/
+theorem scan_finds_encoded (m : JMems) (hm : m.WF = true) (rest : Bytes) :
+    scanJson (encodeObj m ++ rest) = some (0, (encodeObj m).length) := by
+  obtain ⟨ts, h1, h2⟩ := encodeObj_balanced m hm
+  rw [h1]; exact scan_finds_object ts h2 rest
+
+/-- the hostile witness of the repaired defect, as a value: `{"k":"x\"}y"}` is what the encoder prints for k ↦ `x"}y` -/
+example : encodeObj (.cons [107] (.str [120, 34, 125, 121]) .nil)
+    = [123, 34, 107, 34, 58, 34, 120, 92, 34, 125, 121, 34, 125] := by decide
+
+/-- **go-json satisfies the contract** that the composed theorems above take as hypothesis -/
+theorem goJson_contract (a : JMems) (d : Option Bytes) (h : AnnOK a) : goJson.OKat (a, d) := goJson_OKat a d h
+
+/-- **Header round trip, unconditional** -/
+theorem header_roundtrip_json (ann : JMems) (defn : Option Bytes) (hA : AnnOK ann) :
+    parseFastSeqJsonHeader goJson.empty (goJson.lib (info goJson ann defn)) (info goJson ann defn) = some ⟨ann, defn⟩ :=
+  header_roundtrip_aux goJson ann defn (goJson_OKat ann defn hA)
+
+/-- **Re-parsing a formatted header never changes or loses annotations, unconditional**: for *any* title line `t`
+    the parser accepts (any bytes: no hypothesis on `t`), what was parsed, once formatted, is parsed as the same
+    annotations and definition. -/
+theorem reparse_lossless_json (t : Bytes) (p : Parsed JMems)
+    (accepted : parseFastSeqJsonHeader goJson.empty (goJson.lib t) t = some p) :
+    parseFastSeqJsonHeader goJson.empty (goJson.lib (info goJson p.ann p.defn)) (info goJson p.ann p.defn) = some p :=
+  header_roundtrip_aux goJson p.ann p.defn (goJson_OKat _ _ (parsed_AnnOK t p accepted))
+
+/-- test (one input): the title line `{"a":"\u00e9\/","b":[1.50,null]} x` is accepted -/
+example : (parseFastSeqJsonHeader goJson.empty (goJson.lib
+      [123,34,97,34,58,34,92,117,48,48,101,57,92,47,34,44,34,98,34,58,91,49,46,53,48,44,110,117,108,108,93,125,32,120])
+      [123,34,97,34,58,34,92,117,48,48,101,57,92,47,34,44,34,98,34,58,91,49,46,53,48,44,110,117,108,108,93,125,32,120]).isSome
+    = true := by decide
+
+/-- **FASTA: write then read, unconditional** — arbitrary annotation values -/
+theorem write_read_fasta_json (r : Record JMems) (hA : AnnOK r.ann) (h : WF r) :
+    readFasta goJson (writeFasta goJson r) = some [{ r with qual := none }] :=
+  write_read_fasta_aux goJson r (goJson_OKat _ _ hA) h
+
+/-- **FASTQ: write then read, unconditional** (offsets 33 and 64) -/
+theorem write_read_fastq_json (sh : UInt8) (hsh : sh = 33 ∨ sh = 64) (r : Record JMems) (hA : AnnOK r.ann) (h : WF r)
+    (hq : (qualities r.seq r.qual).length = r.seq.length) :
+    readFastq goJson sh (writeFastq goJson sh r)
+      = some [{ r with qual := some ((qualities r.seq r.qual).map (fun q => min q 93)) }] :=
+  write_read_fastq_aux goJson sh hsh r (goJson_OKat _ _ hA) h hq
+
+/-- **FASTA: any non-empty set of records, unconditional** -/
+theorem write_read_fasta_many_json (r : Record JMems) (rs : List (Record JMems))
+    (hA : ∀ x ∈ r :: rs, AnnOK x.ann) (h : ∀ x ∈ r :: rs, WF x) :
+    readFasta goJson ((r :: rs).map (writeFasta goJson)).flatten
+      = some ((r :: rs).map (fun x => { x with qual := none })) :=
+  write_read_fasta_many_aux goJson r rs (fun x hx => goJson_OKat _ _ (hA x hx)) h
+
+/-- **FASTQ: any set of records in one chunk, unconditional** -/
+theorem write_read_fastq_many_json (sh : UInt8) (hsh : sh = 33 ∨ sh = 64) (rs : List (Record JMems))
+    (hA : ∀ x ∈ rs, AnnOK x.ann) (h : ∀ x ∈ rs, WF x)
+    (hq : ∀ x ∈ rs, (qualities x.seq x.qual).length = x.seq.length) :
+    readFastq goJson sh (rs.map (writeFastq goJson sh)).flatten
+      = some (rs.map (fun x => { x with qual := some ((qualities x.seq x.qual).map (fun q => min q 93)) })) :=
+  write_read_fastq_many_aux goJson sh hsh rs (fun x hx => goJson_OKat _ _ (hA x hx)) h hq
+
+/-- **write-after-read is a fixed point, unconditional** (FASTA / FASTQ) -/
+theorem write_read_write_fixed_fasta_json (r : Record JMems) (hA : AnnOK r.ann) (h : WF r) :
+    ∃ r', readFasta goJson (writeFasta goJson r) = some [r'] ∧ writeFasta goJson r' = writeFasta goJson r :=
+  write_read_write_fixed_fasta goJson r (goJson_OKat _ _ hA) h
+
+theorem write_read_write_fixed_fastq_json (sh : UInt8) (hsh : sh = 33 ∨ sh = 64) (r : Record JMems)
+    (hA : AnnOK r.ann) (h : WF r) (hq : (qualities r.seq r.qual).length = r.seq.length) :
+    ∃ r', readFastq goJson sh (writeFastq goJson sh r) = some [r'] ∧ writeFastq goJson sh r' = writeFastq goJson sh r :=
+  write_read_write_fixed_fastq goJson sh hsh r (goJson_OKat _ _ hA) h hq
+
+/-- **Header parser selection.** `ParseGuessedFastSeqHeader` on what the writers print is `ParseFastSeqJsonHeader`
+    (`hobi`: the OBI-format parser, outside this property, leaves a record without definition alone), so the round
+    trips hold for the guessed parser too. -/
+theorem guessed_is_json {α : Type} [DecidableEq α] (J : JsonLib α) (obi : Bytes → Option (Parsed α))
+    (hobi : obi [] = some ⟨J.empty, none⟩) (ann : α) (defn : Option Bytes) (hJ : J.OKat (ann, defn)) :
+    parseGuessed obi J.empty (J.lib (info J ann defn)) (info J ann defn)
+      = parseFastSeqJsonHeader J.empty (J.lib (info J ann defn)) (info J ann defn) :=
+  parseGuessed_info J obi hobi ann defn hJ
+
+theorem write_read_fasta_guessed_json (obi : Bytes → Option (Parsed JMems)) (hobi : obi [] = some ⟨.nil, none⟩)
+    (r : Record JMems) (hA : AnnOK r.ann) (h : WF r) :
+    readFastaG goJson obi (writeFasta goJson r) = some [{ r with qual := none }] :=
+  write_read_fastaG_aux goJson obi hobi r (goJson_OKat _ _ hA) h
+
+theorem write_read_fastq_guessed_json (obi : Bytes → Option (Parsed JMems)) (hobi : obi [] = some ⟨.nil, none⟩)
+    (sh : UInt8) (hsh : sh = 33 ∨ sh = 64) (r : Record JMems) (hA : AnnOK r.ann) (h : WF r)
+    (hq : (qualities r.seq r.qual).length = r.seq.length) :
+    readFastqG goJson obi sh (writeFastq goJson sh r)
+      = some [{ r with qual := some ((qualities r.seq r.qual).map (fun q => min q 93)) }] :=
+  write_read_fastqG_aux goJson obi hobi sh hsh r (goJson_OKat _ _ hA) h hq
+
+/-- non-vacuity: a record whose annotations hold a hostile string, a float literal, a nested map and a list, a
+    definition, a 61-base sequence -/
+def rJ : Record JMems :=
+  ⟨[115, 49], List.replicate 61 97, some (List.replicate 61 93),
+   .cons [107] (.str [120, 34, 125, 121, 10, 226, 128, 168]) (.cons [110] (.num [45, 49, 46, 53, 101, 43, 50, 49])
+     (.cons [109] (.obj (.cons [123] (.arr (.cons (.num [49]) (.cons (.bool true) .nil))) .nil)) .nil)),
+   some [100, 101, 102]⟩
+
+example : AnnOK rJ.ann ∧ WF rJ := by
+  refine ⟨⟨by decide, by decide⟩, ⟨by decide, by decide, by decide, by decide⟩⟩
 
 end ObiVerif.Props.C02
